@@ -14,7 +14,7 @@ from ..ai.values import Num, short
 from ..ai.world import Box
 from ..frontend import Program, norm_text
 from ..report import Instance, Report
-from .harness import parallel_map, run_op, where
+from .harness import parallel_map, run_op, valeq_instances, where
 
 TEAMS_LEN = ("len", "IN.teams", ())
 
@@ -112,6 +112,14 @@ def _job(job) -> List[Dict[str, Any]]:
         inst("R10.1", "UNDECIDED" if oc.undecided else "VIOLATED", case, "; ".join(oc.undecided[:3]) or f"predict_draw does not return normally on a well-formed class (raises {[e.data['exc'] for e in oc.raises]})")
         return out
     res = oc.result
+    # ---- R10.4 teams are positions, not values
+    ve = valeq_instances(oc, "R10.4", "so which pairs contribute depends on coincidences between the teams' ratings, not only on the multiset of teams")
+    for d in ve:
+        d["detail"] = dict(d["detail"], case=case)
+    out.extend(ve)
+    if ve:
+        return out
+    inst("R10.4", "HOLDS", f"no test on the value equality of teams or ratings ({case})")
     if not isinstance(res, Num):
         inst("R10.1", "VIOLATED", case, f"predict_draw returns {short(res)}, not one number")
         return out
